@@ -1,2 +1,3 @@
+import ModbusProofs.Properties.C01
 import ModbusProofs.Properties.C03
 import ModbusProofs.Properties.C10
